@@ -313,6 +313,10 @@ func finish(o *Outcome, spec *PropSpec) int {
 		}
 	}
 
+	assumptions := append([]string{}, spec.Assumptions...)
+	assumptions = append(assumptions, "the analysed program is /repo's current working tree as loaded by go/packages (build configurations listed under coverage.configurations)",
+		"value and lock identity is by access path on go/ssa (no pointer analysis); function values and interface callees are not followed unless stated")
+	notDecided := append([]string{}, spec.NotDecided...)
 	wall := time.Since(o.Start).Seconds()
 	ev := map[string]any{
 		"property_id": o.Prop,
@@ -321,7 +325,7 @@ func finish(o *Outcome, spec *PropSpec) int {
 		"level":       "other",
 		"wall_s":      wall,
 		"violations":  violations,
-		"assumptions": spec.Assumptions,
+		"assumptions": assumptions,
 		"coverage": map[string]any{
 			"explanation":         spec.Explanation,
 			"rule":                "static rules over the type-checked SSA program of /repo (see 'rules'); an obligation is one rule instance keyed by rule+construct; distinct_nontrivial counts distinct obligation keys that a rule actually matched in the source",
@@ -336,7 +340,7 @@ func finish(o *Outcome, spec *PropSpec) int {
 			"configurations":      o.Configs,
 			"load":                o.LoadStats,
 			"self_test":           o.SelfTest,
-			"not_decided":         spec.NotDecided,
+			"not_decided":         notDecided,
 			"checker_cmd":         strings.Join(os.Args, " "),
 			"trusted_base":        []string{"go/types type checker", "golang.org/x/tools v0.29.0 go/ssa builder and VTA call graph", "the rule tables in /verif/checker (hand-confirmed instances)", "third-party libraries behave as documented"},
 			"exhaustive":          false,
